@@ -295,6 +295,9 @@ def st_join(draw):
             "io0": draw(st.sampled_from([0, 0, 1, 5])),
             "f0": draw(st.sampled_from([0, 1, 100])),
             "logs": draw(ST_LOGS),
+            # number of stored features that the input provides through a file
+            # basin only (a thin file next to its upstream file)
+            "thin": draw(st.sampled_from([0, 0, 0, 0, 1, 2, 9])),
         })
     return {
         "mode": "join", "chunk": draw(st.sampled_from([None, None, 100])),
@@ -629,7 +632,7 @@ def _run_join(spec, rec, d):
     inputs = spec["inputs"]
     k = len(inputs)
     fr = spec["fr"]
-    paths, info = [], []
+    paths, info, upstream = [], [], {}
     for i, inp in enumerate(inputs):
         date = f"2021-03-{4 + inp['day']:02d}"
         tstr = _fmt_time(inp["sod"], inp["dig"], inp["num"])
@@ -638,12 +641,30 @@ def _run_join(spec, rec, d):
         m = meta(experiment={"date": date, "time": tstr, "run index": inp["ri"],
                              "sample": f"sample-{i}"},
                  imaging={"frame rate": fr})
-        _write(p, inp["n"], feats, m, inp["logs"], seed=inp["seed"], fid=i + 1,
-               shape=spec["shape"], traces=spec["traces"], fr=fr, io0=inp["io0"],
-               f0=inp["f0"])
+        kw = dict(seed=inp["seed"], fid=i + 1, shape=spec["shape"],
+                  traces=spec["traces"], fr=fr, io0=inp["io0"], f0=inp["f0"])
+        moved = [f for f in sorted(feats) if f != MARK][:inp.get("thin", 0)]
+        if moved:
+            # the same measurement as a thin file: `moved` features are only
+            # available through the file basin (identical generator => same data)
+            up = d / f"upstream_{inp['name']}.rtdc"
+            _write(up, inp["n"], feats, m, {}, **kw)
+            _write(p, inp["n"], feats - set(moved), m, inp["logs"], **kw)
+            with RTDCWriter(p, mode="append") as hw:
+                hw.store_basin(basin_name="upstream", basin_type="file",
+                               basin_format="hdf5", basin_locs=[str(up)],
+                               basin_feats=moved, verify=False)
+            upstream[i] = up
+            rec.cls("join:basin-backed-input")
+            if i > 0:
+                rec.cls("join:basin-backed-later-input")
+        else:
+            _write(p, inp["n"], feats, m, inp["logs"], **kw)
         paths.append(p)
+        # "feats": stored in the input file itself (dclab-join starts from the stored
+        # features of the earliest input); "avail": also via basin or computation
         info.append({"date": date, "time": tstr, "T": _stamp(inp), "ri": inp["ri"],
-                     "feats": feats, "avail": available(feats),
+                     "feats": feats - set(moved), "avail": available(feats),
                      "key": "_".join([date, tstr, str(inp["ri"])])})
     rec.cls("join")
     # ---- expected orders
@@ -738,10 +759,12 @@ def _run_join(spec, rec, d):
     # ---- read inputs (reference) and output
     ref = []
     for i, p in enumerate(paths):
-        with dclab.new_dataset(p) as di:
+        with dclab.new_dataset(p) as di, \
+                dclab.new_dataset(upstream.get(i, p)) as dd:
+            # data reference of a thin input: its self-contained upstream file
             ref.append({"ds_innate": set(di.features_innate),
                         "logs": _logs(di),
-                        "data": {f: _read(di, f) for f in sorted(info[i]["avail"])
+                        "data": {f: _read(dd, f) for f in sorted(info[i]["avail"])
                                  if f in POOL}})
     with dclab.new_dataset(out) as dj:
         _check_join(spec, rec, dj, info, ref, e1, e2, ordtag)
